@@ -18,7 +18,9 @@ from props import C01 as base
 
 THEOREMS = ['C09_synth_equiv', 'C09_analysis_equiv', 'C09_fast_padding_inert', 'C09_reindex',
             'C09_options_irrelevant', 'C09_base_multiple_irrelevant', 'C09_mask_equiv', 'C09_axes_equiv',
-            'C09_eigenvalues_equiv', 'C09_shapes', 'C09_hyps_satisfiable']
+            'C09_eigenvalues_equiv', 'C09_shapes', 'C09_hyps_satisfiable',
+            'C09_explicit_terms_equiv', 'C09_explicit_terms_padding_inert', 'C09_implicit_terms_equiv',
+            'C09_implicit_inverse_equiv', 'C09_whole_state_satisfiable']
 LEVEL = 'proof'
 LEVEL_TEXT = ('machine-checked theorems (Coq) for every field, all sizes, all paddings, all tables related by the fixed '
               're-indexing and ALL inputs: synth_fast.E = pad.synth_real, analysis_fast.pad = E.analysis_real, inertness of '
@@ -125,6 +127,17 @@ def generate(ctx):
                                      else [VARIANTS[(n + k) % 8] for k in (0, 3, 6)] + ([EXTRA_VARIANTS[(n // 2) % len(EXTRA_VARIANTS)]] if n % 2 == 0 else []))
                                     + (EXTRA_VARIANTS if (ctx.tier == 'thorough' and not big) else []),
                         'full_methods_variants': [0] if (big or ctx.tier == 'quick') else [n % 8, (n + 5) % 8]}
+
+    # ---- "hence the same model tendencies": whole-state primitive equations, reference vs fast, and the fast model ----
+    wv = [dict(base=1, stacked=0, rev=0), dict(base=4, stacked=1, rev=0, model=1), dict(base=4, stacked=0, rev=0), dict(base=1, stacked=1, rev=0)]
+    wplan = [(dict(M=2, L=3, I=6, J=3), 2, 1, 1)] if ctx.tier == 'quick' else \
+            [(dict(M=2, L=3, I=6, J=3), 2, 1, 1), (dict(M=3, L=4, I=8, J=4), 2, 0, 1), (dict(M=4, L=5, I=12, J=6), 3, 1, 0)]
+    for n, (wc, K, oro, ntr) in enumerate(wplan):
+        inner = sorted(set(int(t) for t in rng.choice(np.arange(1, 32), size=K - 1, replace=False)))
+        yield 'whole_state_equiv', {'cfg': dict(wc, spacing='gauss', offset=0.0, radius=1.0), 'b': [0.0] + [t / 32.0 for t in inner] + [1.0],
+                                    'T': (250.0 + rng.integers(-160, 161, size=K) / 4.0).tolist(), 'eta': [0.5, 0.125, 2.0][n % 3],
+                                    'oro': oro, 'ntr': ntr, 'seed': int(rng.integers(1 << 30)),
+                                    'variants': [dict(v, model=(1 if (v.get('model') and n == 0) else 0)) for v in wv]}
 
     yield 'cache_integrity', {}
 
@@ -388,5 +401,88 @@ def r_equiv(ctx, a):
             ctx.oracle_close('uv_nodal_to_vor_div_modal: fast = E(real) (divergence)', np.asarray(vf[1]), E(np.asarray(vr[1]), M, L, fs), scale=sv)
 
 
-RUNNERS = {'cache_integrity': base.r_cache_integrity, 'mesh': r_mesh, 'jit_static': r_jit_static, 'default_stacked': r_default_stacked, 'related': r_related, 'layout': base.r_layout,
+def r_whole_state_equiv(ctx, a):
+    """'Hence the same model tendencies': PrimitiveEquations.explicit_terms / implicit_terms / implicit_inverse on the
+    same physical state with the reference and the fast implementation (every option variant), compared through the
+    re-indexing (oracle = the property); table obligation dtables_related (derivative recurrence weights, sec2_lat,
+    sin_lat re-indexed, EXACT); the fast whole-state extracted model (Model/PrimEqFullFast.v, commands 40-42) against
+    the fast implementation on its own dumped tables."""
+    from props import C04
+    j = C04.J(); pe = j['pe']; specs = C04.specs_of('default')
+    c = a['cfg']; M, L, I, Jn = c['M'], c['L'], c['I'], c['J']
+    gr = base.make_grid(dict(c, impl='real'))
+    vert = j['sc'].SigmaCoordinates(np.asarray(a['b'], dtype=np.float64)); K = vert.layers
+    ntr = int(a.get('ntr', 0)); eta = float(a['eta'])
+    f = C04.ws_state(a, gr, K); names = sorted(f['tracers'])
+    Tref = np.asarray(a['T'], dtype=np.float64)
+    A = C04.A
+    fields = ['vorticity', 'divergence', 'temperature_variation', 'log_surface_pressure'] + ['tracer'] * ntr
+
+    def run(grid, emb):
+        coords = j['cs'].CoordinateSystem(grid, vert)
+        eq = pe.PrimitiveEquations(Tref, emb(f['oro']), coords, specs)
+        st = pe.State(emb(f['vort']), emb(f['div']), emb(f['Tdev']), emb(f['lnps']), {n: emb(f['tracers'][n]) for n in names})
+        return (coords, st, C04.flat_state(eq.explicit_terms(st), names), C04.flat_state(eq.implicit_terms(st), names),
+                C04.flat_state(eq.implicit_inverse(st, eta), names))
+    _, _, er, ir, vr = run(gr, lambda x: x)
+    smag = 1.0 + max(A(f['vort']), A(f['div']), A(f['Tdev']), A(f['lnps']), A(Tref))
+    sce = [1e3 * (1.0 + A(x)) * smag for x in er]; sci = [1e3 * (1.0 + A(x)) * smag for x in ir]; scv = [1e3 * (1.0 + A(x)) * smag for x in vr]
+    ar_, br_ = (np.asarray(t) for t in gr._derivative_recurrence_weights)
+    phi = [0] + list(range(2, 2 * M))
+    for v in a['variants']:
+        tagv = vtag(v); ctx.count('whole-state-variant:' + tagv)
+        gf = base.make_grid(dict(c, impl='fast', **v))
+        fs = tuple(gf.modal_shape); rows, cols = fs; If, Jf = gf.nodal_shape; Mh = rows // 2
+        af_, bf_ = (np.asarray(t) for t in gf._derivative_recurrence_weights)
+        ok = af_.shape == fs and bf_.shape == fs
+        ctx.table_obligation('dtables_related[' + tagv + ']: shapes', bool(ok), [af_.shape, bf_.shape])
+        if not ok: continue
+        ctx.table_obligation('dtables_related[' + tagv + ']: dt_a_in (a_fast[phi a, l] == a_real[a, l], bitwise)',
+                             bool(np.array_equal(af_[phi][:, :L], ar_)), None)
+        ctx.table_obligation('dtables_related[' + tagv + ']: dt_a_out (a_fast zero in the padded columns)',
+                             bool((af_[phi][:, L:] == 0).all()), None)
+        ctx.table_obligation('dtables_related[' + tagv + ']: dt_b_in (b_fast[phi a, l] == b_real[a, l] for l + 1 < L, bitwise)',
+                             bool(np.array_equal(bf_[phi][:, :L - 1], br_[:, :L - 1])), None)
+        ctx.table_obligation('dtables_related[' + tagv + ']: sec2_lat / sin_lat equal on the resolved latitudes (bitwise)',
+                             bool(np.array_equal(np.asarray(gf.sec2_lat)[:Jn], np.asarray(gr.sec2_lat))
+                                  and np.array_equal(np.asarray(gf.nodal_axes[1])[:Jn], np.asarray(gr.nodal_axes[1]))), None)
+        emb = lambda x, fs=fs: E(np.asarray(x, dtype=np.float64), M, L, fs)
+        coords_f, st_f, ef, imf, vf = run(gf, emb)
+        for nm, x_, y_, s_ in zip(fields, ef, er, sce):
+            ctx.oracle_close('explicit_terms: Pi(fast(E s)) = real(s) [%s]' % nm, Pi(x_, M, L), y_, scale=s_)
+            ctx.oracle('explicit_terms: fast result is zero on the extra row and on all padding [%s]' % nm,
+                       bool(np.all(x_ == E(Pi(x_, M, L), M, L, fs))), None)
+        for nm, x_, y_, s_ in zip(fields, imf, ir, sci):
+            ctx.oracle_close('implicit_terms: Pi(fast(E s)) = real(s) [%s]' % nm, Pi(x_, M, L), y_, scale=s_)
+        for nm, x_, y_, s_ in zip(fields, vf, vr, scv):
+            ctx.oracle_close('implicit_inverse: Pi(fast(E s)) = real(s) [%s]' % nm, Pi(x_, M, L), y_, scale=s_)
+        if not v.get('model'): continue
+        # ---- the fast whole-state extracted model against the fast implementation ----
+        ff, pf, wf = base.tables(gf)
+        f2 = np.transpose(ff, (0, 2, 1)).reshape(If, rows) if v['stacked'] else ff
+        ok = f2.shape == (If, rows) and pf.shape == (Mh, Jf, cols) and wf.shape == (Jf,)
+        ctx.exact('whole state (fast): table shapes', bool(ok), True)
+        if not ok: continue
+        ints = [M, L, I, Jn, K, ntr, Mh, cols, If, Jf, int(v['stacked']), int(v['rev'])]
+        tr_flat = np.concatenate([emb(f['tracers'][n]).ravel() for n in names]) if names else []
+        arrs = [f2.ravel(), pf.ravel(), wf, af_.ravel(), bf_.ravel(), np.asarray(gf.sec2_lat), np.asarray(gf.nodal_axes[1]),
+                [gf.radius, specs.angular_velocity, specs.g, specs.R, specs.kappa, eta], np.log(vert.centers), a['b'], Tref,
+                emb(f['oro']).ravel(), emb(f['vort']).ravel(), emb(f['div']).ravel(), emb(f['Tdev']).ravel(), emb(f['lnps']).ravel(), tr_flat]
+        me = C04.split_state(ctx.model.call(40, ints, arrs), K, rows, cols, ntr)
+        for nm, x_, y_, s_ in zip(fields, ef, me, sce):
+            ctx.corr('whole state (fast, composed): explicit_terms ' + nm, x_, y_, scale=s_)
+        mi = C04.split_state(ctx.model.call(41, ints, arrs), K, rows, cols, ntr)
+        for nm, x_, y_, s_ in zip(fields, imf, mi, sci):
+            ctx.corr('whole state (fast): implicit_terms ' + nm, x_, y_, scale=s_)
+        mat = pe._get_implicit_term_matrix(eta, coords_f, Tref, specs.kappa, specs.R)
+        inv = np.linalg.inv(mat)
+        res = A(np.einsum('lij,ljk->lik', inv, mat) - np.eye(2 * K + 1))
+        ctx.table_obligation('np.linalg.inv(implicit_matrix) is an inverse on the padded l axis', res <= 2.0 ** -36 * max(1.0, A(inv) * A(mat)),
+                             {'residual': res})
+        mo = C04.split_state(ctx.model.call(42, ints, arrs + [np.asarray(inv).ravel()]), K, rows, cols, ntr)
+        for nm, x_, y_, s_ in zip(fields, vf, mo, scv):
+            ctx.corr('whole state (fast): implicit_inverse ' + nm, x_, y_, scale=s_ * (1.0 + A(inv)))
+
+
+RUNNERS = {'whole_state_equiv': r_whole_state_equiv, 'cache_integrity': base.r_cache_integrity, 'mesh': r_mesh, 'jit_static': r_jit_static, 'default_stacked': r_default_stacked, 'related': r_related, 'layout': base.r_layout,
            'transforms': base.r_transforms, 'equiv': r_equiv}
